@@ -212,6 +212,14 @@ func genPlanC13(rt *rapid.T) *RPlan {
 	switch p.Scenario {
 	case "pacing":
 		add(total, 0)
+		// an application that hands Send something that cannot be encoded (the encoder panics inside the socket's Send)
+		// and recovers: pacing and liveness hold for everybody else, before and after
+		if rapid.IntRange(0, 3).Draw(rt, "unsendable") == 0 {
+			l := rapid.IntRange(0, lanes-1).Draw(rt, "unsendable-lane")
+			if n := len(p.Senders[l]); n > 0 {
+				p.Senders[l][rapid.IntRange(0, n-1).Draw(rt, "unsendable-at")].Bad = true
+			}
+		}
 		// routing-lost indications while the burst is under way: the repetitions are transmissions like any other
 		// and compete with the senders that are queueing on the send lock
 		// busy indications with a wait *shorter* than the post-send pause, taken in while a pause is running and
